@@ -150,7 +150,7 @@ fn main() {
             println!("cpus {k}");
             let conf = exec::Conf {
                 cpu: Some(k),
-                sched: sched::SchedSpec { kind: sched::SchedKind::Random, seed: 42, hold: false },
+                sched: sched::SchedSpec { kind: sched::SchedKind::Random, seed: 42, hold: false, callers: 0 },
                 trace: None,
             };
             for (i, (kind, d, e)) in vmodel::gen::fidelity_corpus().into_iter().enumerate() {
